@@ -13,4 +13,7 @@ mcScriptD4fail == << <<"rules", 2>> >> \o mcScriptD4long
 \* the restoring build fails because of the unrelated rule; later builds run with the rule removed again
 mcScriptD4fail2 == << <<"build", "">>, <<"edit", "s", "S1">>, <<"edit", "s2", "S0">>, <<"build", "">>, <<"clean", "p2">>, <<"edit", "s", "S0">>,
                       <<"rules", 2>>, <<"build", "">>, <<"rules", 1>>, <<"build", "">>, <<"edit", "s", "S1">>, <<"build", "">> >>
+\* the restore goes into a path whose file the user has deleted (nothing is displaced there), while the table still remembers the deleted file
+mcScriptD4del == << <<"build", "">>, <<"edit", "s", "S1">>, <<"edit", "s2", "S0">>, <<"build", "">>, <<"clean", "p2">>, <<"del", "p">>, <<"edit", "s", "S0">>, <<"build", "q">>,
+                    <<"build", "">>, <<"edit", "s", "S1">>, <<"build", "">>, <<"del", "p">>, <<"del", "q">>, <<"edit", "s", "S0">>, <<"build", "">> >>
 ====
